@@ -101,16 +101,22 @@ def chanBoundEndpoint (ws : List Rat) (b xmin xmax : Rat) : Rat :=
       return analyze_accumulator(model, x_dict, verbose)
 
   With two or more quantized layers `predict` returns a LIST of arrays (one per layer, the whole
-  batch each).  With exactly ONE quantized layer it returns a single array and `zip` iterates over
-  its first axis: `value` is the FIRST SAMPLE of the batch, the other samples never enter the range
-  (finding C18-from-sample-single-layer). -/
+  batch each).  With exactly ONE quantized layer it returns a single array; since the repair of
+  finding C18-from-sample-single-layer (fix round R) the function wraps it into a one-element list
+
+      if not isinstance(values, list):
+        values = [values]
+
+  so `value` is the whole batch of that layer in both cases (before the repair `zip` iterated over
+  the batch axis and the range came from the FIRST SAMPLE only). -/
 
 def listMin (l : List Rat) : Rat := l.foldl (fun a b => if b < a then b else a) (l.headD 0)
 
 /-- the range `(np.amin, np.amax)` the function derives for one layer; `samples[s]` = the layer's
-    input for sample `s`, flattened; `single` = the model has exactly one quantized layer -/
-def fromSampleRange (single : Bool) (samples : List (List Rat)) : Rat × Rat :=
-  let seen := if single then samples.headD [] else samples.flatten
+    input for sample `s`, flattened; `single` = the model has exactly one quantized layer (kept as
+    an argument of the route: the result does not depend on it any more) -/
+def fromSampleRange (_single : Bool) (samples : List (List Rat)) : Rat × Rat :=
+  let seen := samples.flatten
   (listMin seen, listMax seen)
 
 def analyzeFromSample (single : Bool) (samples : List (List Rat)) (slices : List (List Rat))
